@@ -30,19 +30,19 @@ setp('C02',
  "Safety half only. Unbounded Verus proof of: delivery-site and window-advance-site conditions in PacketReceiver::receive (a packet is delivered / the window passes it only if its channel / window parent lead says the Reliable parent is already behind the channel base / the new base); resynchronize never skips an entry that awaits delivery and ignores ids it cannot reach; sender side: parent leads are the distance to the recorded Reliable parent, parents are set iff the mode is Reliable and cleared exactly when the base passes them, emitted leads satisfy the receiver's validity rule; emit_sync_frame offers next_packet_id only when resend queue and pending queue are empty; is_send_pending is exactly the three-queue disjunction; quiescence lemma (base == next and empty queue => send_buffer_size 0).",
  "Constructors trusted as in C01.",
  nd=["'eventually delivered exactly once within bounded time' (liveness under a fair network; no contract can state it)", "'latest Reliable on that channel' as a history statement (WindowEntry stores no send mode; proved: the recorded parent becomes seq iff mode is Reliable)"],
- nuc=["HalfConnection::emit_data_frames (resend/pending queue discipline) — pinned, trusted frame contract only"], technique=T)
+ nuc=["the closure literals inside emit_ack_frames / emit_data_frames (T15: pinned text, their effect on the captured budget is a reported site assumption)"], technique=T)
 
 setp('C03',
- "Total correctness (no panic, no overflow, every index/slice/shift/unwrap in bounds, every debug_assert!, every loop with a `decreases`) of every function under contract on the paths bytes -> Frame::read -> client/server handle_frame -> HalfConnection handlers -> frame ack queue / packet receiver / assembly window / fragment buffer, ack frame -> frame queue (acknowledge_group, window advance, log culling, reorder buffer, loss-interval integer code) -> packet sender acknowledge; sync frame -> resynchronize; send/step/flush glue that Verus accepts (emit_frames, emit_sync_frame, both frame emitters, builders); client and server state machines. All handler contracts are quantified over ALL field values of CRC-valid frames; the only value ranges assumed are the ones the decoder's postcondition establishes. One proof gap is reported on every run (PROOF-GAP line, counted as undischarged): the ack-byte accumulator bound in the client's socket loop (usage assumption < 2^62 bytes acknowledged per step()). The TFRC float path (handle_feedback, nofeedback_expired, step, update_rtt/rto, RecvRateSet) is decided by the Kani unit kani:floats (panic/overflow freedom for all feedback values in the stated domain; RecvRateSet bounded).",
+ "Total correctness (no panic, no overflow, every index/slice/shift/unwrap in bounds, every debug_assert!, every loop with a `decreases`) of every function under contract on the paths bytes -> Frame::read -> client/server handle_frame -> HalfConnection handlers -> frame ack queue / packet receiver / assembly window / fragment buffer, ack frame -> frame queue (acknowledge_group, window advance, log culling, reorder buffer, loss-interval integer code) -> packet sender acknowledge; sync frame -> resynchronize; send/step/flush glue that Verus accepts (emit_frames, emit_sync_frame, both frame emitters, builders); client and server state machines. All handler contracts are quantified over ALL field values of CRC-valid frames; the only value ranges assumed are the ones the decoder's postcondition establishes. One proof gap is reported on every run (PROOF-GAP line, counted as undischarged): the ack-byte accumulator bound in the client's socket loop (usage assumption < 2^62 bytes acknowledged per step()). The TFRC float path (handle_feedback, nofeedback_expired, step, update_rtt/rto) is decided by the Kani unit kani:floats (panic/overflow freedom for all feedback values in the stated domain); RecvRateSet (integer code) by Verus for every set size.",
  "Configuration preconditions (reported, not checked): now_ms <= 2^62, active_timeout_ms <= 2^62, max_receive_alloc + 1448 + 94896128 <= usize::MAX, max_packet_size <= MAX_PACKET_SIZE, process runs < 2^62 ms. Socket loops (`while let Ok(..) = socket.recv(..)`) carry no termination measure (the socket drives them).",
  nd=["termination of the two socket receive loops (bounded by the OS queue, not by the code)", "termination of the float bisection eval_tcp_throughput_inv (argued, D5)", "LossIntervalQueue::compute_loss_rate and FeedbackGen::get_feedback (f64, not under contract)"],
- nuc=["HalfConnection::emit_ack_frames, emit_data_frames, step (closures capturing &mut) — pinned, trusted", "send_rate.rs (all f64), recv_rate_set.rs, LossIntervalQueue::compute_loss_rate/reset, FeedbackGen::get_feedback, fill_flush_alloc — f64: forced external_body", "FrameLog::push, FrameLog::drain, FeedbackGen::notify_ack/notify_advancement (closure / generic RangeBounds) — trusted with the preconditions that make their unwraps safe, proved at every call site", "Client::connect, Server::bind*, Server::step (impl Iterator), now_ms (Instant)"],
+ nuc=["the three closure literals of HalfConnection::emit_ack_frames, emit_data_frames, step (T15: pinned text, trusted contract; the functions themselves are verified)", "send_rate.rs float functions, LossIntervalQueue::compute_loss_rate/reset, FeedbackGen::get_feedback, fill_flush_alloc — f64: forced external_body, pinned frame contracts (arithmetic: Kani where listed)", "RecvRateSet::max (iterator adapter) and loss_increase_update (iter_mut + f64) — trusted, pinned, bounded Kani harness", "FrameLog::push, FrameLog::drain, FeedbackGen::notify_ack/notify_advancement (closure / generic RangeBounds) — trusted with the preconditions that make their unwraps safe, proved at every call site", "the socket-opening statements of Client::connect (T17: hoisted, pinned), Server::bind*, the `impl Iterator` wrappers of step(), now_ms (Instant)"],
  technique=T, thorough=['native:C03'])
 
 setp('C04',
  "Unbounded Verus proof of: PendingPacket::new fragment count (max(ceil(len/1448),1)) and datagram(i) slice == data[i*1448 .. min((i+1)*1448, len)] with the concatenation lemma; both frame emitters and the sync path never hand more than 1472 bytes to the sink (the bound is the sink's and the callback's precondition, discharged at the single call site of each); encoded_size == bytes add() appends (the size prediction the emitter packs frames with); FragmentBuffer first-write-wins, exact byte placement, counters, finalize == buffer[..total_size] == concatenation of the fragments, for any order/repetition of writes (trace lemmas); AssemblyWindow::try_add slot-by-slot case contract incl. 'any of the four header fields differs => nothing changes' and 'all other slots unchanged'; datagram_is_valid == its spec.",
  "AssemblyWindow::new trusted (pinned, native test).",
- nd=["interleaving of whole flushes (emit_data_frames cuts a packet across flushes: not under contract)"],
+ nd=["composition over several flushes as one history statement (the per-call facts are proved: every fragment of an emitted packet is queued exactly once and in order, a fragment leaves the pending queue only into a frame, a sync frame announces a packet id only when nothing is pending)"],
  nuc=["HalfConnection::emit_data_frames (pinned)"], technique=T)
 
 setp('C06',
